@@ -139,6 +139,13 @@ def _stage_rule(evs, strict_order):
         out.append(V("stage-without-unstage", f"staged {staged}, unstaged {unstaged}: the wrapper issued no unstage message for {missing}", missing=missing))
     elif strict_order and [d for d in unstaged if d in staged] != list(reversed(staged)):
         out.append(V("unstage-order", f"staged {staged}, unstaged {unstaged} (expected reverse order)"))
+    # ... and *one* unstage for every stage: no device is unstaged more often than it was staged
+    for d in unstaged:
+        n_st = len({m.d["mid"] for m in msgs if m.d["cmd"] == "stage" and m.d["obj"] == d})
+        n_un = len({m.d["mid"] for m in msgs if m.d["cmd"] == "unstage" and m.d["obj"] == d})
+        if n_st and n_un > n_st:  # (a device the wrapper never got to stage is outside the statement)
+            out.append(V("unstaged-more-often-than-staged", f"{d}: {n_st} 'stage' message(s) but {n_un} 'unstage' messages", dev=d))
+            break
     return out
 
 
@@ -250,6 +257,15 @@ def check(res):
     for m in msgs:
         if m.d["cmd"] == "unstage" and m.d["obj"] not in unstaged:
             unstaged.append(m.d["obj"])
+    if "stage" in res.case["wrappers"] and "lazy" not in res.case["wrappers"]:
+        # 'one unstage for every stage': a device is not unstaged more often than it was staged (two clean-ups, each
+        # correct alone, undoing the same staging)
+        for d in unstaged:
+            n_st = len({m.d["mid"] for m in msgs if m.d["cmd"] == "stage" and m.d["obj"] == d})
+            n_un = len({m.d["mid"] for m in msgs if m.d["cmd"] == "unstage" and m.d["obj"] == d})
+            if n_st and n_un > n_st:
+                out.append(V("unstaged-more-often-than-staged", f"{d}: {n_st} 'stage' message(s) but {n_un} 'unstage' messages", dev=d))
+                break
     if "stage" in res.case["wrappers"] or "lazy" in res.case["wrappers"]:
         # a stage message that itself failed is not owed an unstage by stage_wrapper's first loop... it is:
         # both wrappers unstage everything they *attempted* to stage; assert for executed ones only
